@@ -34,10 +34,22 @@ var c18Behaviours = []string{"reply1", "reply2", "none", "pre-reply", "pre-none"
 
 // c18Round runs one batch of concurrent requests and an event stream against
 // the real adapter connected to the fake server.
-func c18Round(c *RunCtx, seed uint64, nreq int, dropAt int) {
+// Verdicts that compare with wall-clock deadlines ("the reply should have
+// arrived before the timeout") go to timing when it is not nil instead of being
+// reported: the caller repeats such a round and reports them only if they show
+// again (a logic defect repeats, a stalled process does not).
+func c18Round(c *RunCtx, seed uint64, nreq int, dropAt int, timing *[]VReport) {
 	wit := map[string]interface{}{"kind": "c18round", "seed": seed, "requests": nreq, "drop_at": dropAt}
 	fail := func(sig, format string, a ...interface{}) {
 		c.Violation(VReport{Prop: "C18", Sig: sig, Msg: fmt.Sprintf("[seed=%d n=%d] ", seed, nreq) + fmt.Sprintf(format, a...), Witness: wit})
+	}
+	failTiming := func(sig, format string, a ...interface{}) {
+		v := VReport{Prop: "C18", Sig: sig, Msg: fmt.Sprintf("[seed=%d n=%d] ", seed, nreq) + fmt.Sprintf(format, a...), Witness: wit}
+		if timing != nil {
+			*timing = append(*timing, v)
+			return
+		}
+		c.Violation(v)
 	}
 	rr := NewRng(seed)
 	verifhook.Configure(seed, 25, nil)
@@ -47,8 +59,10 @@ func c18Round(c *RunCtx, seed uint64, nreq int, dropAt int) {
 		return
 	}
 	defer srv.Close()
-	const reqTimeout = 120 * time.Millisecond
-	const extTimeout = 260 * time.Millisecond
+	// generous margins: the verdicts below compare against these wall-clock
+	// values, and a loaded machine stalls a process for tens of milliseconds
+	const reqTimeout = 400 * time.Millisecond
+	const extTimeout = 900 * time.Millisecond
 	var pendingActions sync.WaitGroup
 	var pubSeen sync.Map // request id -> true
 	srv.OnPub = func(p *natsfake.Pub) {
@@ -75,7 +89,7 @@ func c18Round(c *RunCtx, seed uint64, nreq int, dropAt int) {
 		case "none":
 		case "pre-reply":
 			srv.Publish(p.Reply, []byte(fmt.Sprintf(`timeout:"%d"`, extTimeout.Milliseconds())))
-			later(reqTimeout+40*time.Millisecond, func() { srv.Publish(p.Reply, reply) })
+			later(reqTimeout+150*time.Millisecond, func() { srv.Publish(p.Reply, reply) })
 		case "pre-none":
 			srv.Publish(p.Reply, []byte(fmt.Sprintf(`timeout:"%d"`, extTimeout.Milliseconds())))
 		case "pre-pre-none":
@@ -87,7 +101,7 @@ func c18Round(c *RunCtx, seed uint64, nreq int, dropAt int) {
 			jitter := time.Duration(int64(b.ID%7)-3) * 300 * time.Microsecond
 			later(reqTimeout+jitter, func() { srv.Publish(p.Reply, reply) })
 		case "late":
-			later(reqTimeout+60*time.Millisecond, func() { srv.Publish(p.Reply, reply) })
+			later(reqTimeout+250*time.Millisecond, func() { srv.Publish(p.Reply, reply) })
 		}
 	}
 	cl := &rnats.Client{RequestTimeout: reqTimeout, URL: srv.URL(), Logger: memLogAdapter{&MemLog{}}, BufferSize: 8192}
@@ -203,7 +217,26 @@ func c18Round(c *RunCtx, seed uint64, nreq int, dropAt int) {
 		}
 		time.Sleep(time.Millisecond)
 	}
-	time.Sleep(5 * time.Millisecond) // let completions that were already being invoked finish recording
+	// let completions that were already being invoked finish recording: the
+	// adapter forgets a request before it invokes the callback
+	if !dropped {
+		waitUntil := time.Now().Add(5 * time.Second)
+		for time.Now().Before(waitUntil) {
+			missing := false
+			for _, rq := range reqs {
+				rq.mu.Lock()
+				if len(rq.Done) == 0 {
+					missing = true
+				}
+				rq.mu.Unlock()
+			}
+			if !missing {
+				break
+			}
+			time.Sleep(time.Millisecond)
+		}
+	}
+	time.Sleep(5 * time.Millisecond)
 	if dropped {
 		deadline = time.Now().Add(10 * time.Second)
 		for closedCalls.Load() == 0 && time.Now().Before(deadline) {
@@ -240,8 +273,8 @@ func c18Round(c *RunCtx, seed uint64, nreq int, dropAt int) {
 		}
 		switch rq.Behaviour {
 		case "pre-reply":
-			// the pre-response extends the timeout to 260 ms and the reply follows
-			// 160 ms after the request; if the pre-response is processed later
+			// the pre-response extends the timeout to 900 ms and the reply follows
+			// 550 ms after the request; if the pre-response is processed later
 			// than the base timeout (loaded machine) the request times out
 			// legitimately, so single timeouts are counted, not judged: a round in
 			// which most pre-reply requests time out is (below)
@@ -253,7 +286,9 @@ func c18Round(c *RunCtx, seed uint64, nreq int, dropAt int) {
 				fail("wrongCompletion", "request %d (%s) completed with %+v, want the first reply", rq.ID, rq.Behaviour, d)
 			}
 		case "reply1", "reply2":
-			if d.Err != "" || d.Payload != wantReply {
+			if d.Err == "system.timeout" && el >= reqTimeout {
+				failTiming("wrongCompletion", "request %d (%s) completed with %+v, want the first reply", rq.ID, rq.Behaviour, d)
+			} else if d.Err != "" || d.Payload != wantReply {
 				fail("wrongCompletion", "request %d (%s) completed with %+v, want the first reply", rq.ID, rq.Behaviour, d)
 			}
 		case "late":
@@ -277,8 +312,11 @@ func c18Round(c *RunCtx, seed uint64, nreq int, dropAt int) {
 		case "pre-none", "pre-pre-none":
 			if d.Err != "system.timeout" {
 				fail("wrongCompletion", "request %d (%s) completed with %+v, want system.timeout", rq.ID, rq.Behaviour, d)
+			} else if el < reqTimeout {
+				fail("earlyTimeout", "request %d with a timeout pre-response timed out after %v, before even the configured timeout %v", rq.ID, el, reqTimeout)
 			} else if el < extTimeout {
-				fail("earlyTimeout", "request %d with a timeout pre-response timed out after %v, extended timeout %v", rq.ID, el, extTimeout)
+				// the base timeout fired: the pre-response was processed late, or ignored
+				failTiming("earlyTimeout", "request %d with a timeout pre-response timed out after %v, extended timeout %v", rq.ID, el, extTimeout)
 			}
 		case "503":
 			if d.Err != "system.notFound" {
@@ -320,7 +358,7 @@ func c18Round(c *RunCtx, seed uint64, nreq int, dropAt int) {
 	}
 	unsub.Unsubscribe()
 	if preTotal >= 4 && preTimedOut*2 > preTotal {
-		fail("preResponseIgnored", "%d of %d requests whose timeout pre-response (260 ms) was followed by a reply after 160 ms completed with system.timeout", preTimedOut, preTotal)
+		failTiming("preResponseIgnored", "%d of %d requests whose timeout pre-response (900 ms) was followed by a reply after 550 ms completed with system.timeout", preTimedOut, preTotal)
 	}
 	c.Stat("c18_events_checked", int64(len(got)))
 	cl.Close()
@@ -341,13 +379,46 @@ func c18Run(c *RunCtx) {
 		nreq := []int{1, 2, 8, 24, 64}[rr.Intn(5)]
 		dropAt := -1
 		if rr.Chance(20) {
-			dropAt = rr.Intn(150)
+			dropAt = rr.Intn(500)
 		}
 		c.WAL("C18 round seed=%d nreq=%d drop=%d", seed, nreq, dropAt)
-		c18Round(c, seed, nreq, dropAt)
+		var timing []VReport
+		c18Round(c, seed, nreq, dropAt, &timing)
+		for rerun := 0; len(timing) > 0 && rerun < 2; rerun++ {
+			c.Stat("c18_rounds_repeated_for_timing", 1)
+			timing = nil
+			c18Round(c, seed, nreq, dropAt, &timing)
+		}
+		for _, v := range timing {
+			c.Violation(v)
+		}
 		c.Eval(int64(nreq))
 		c.Distinct(Hash64(fmt.Sprint(seed)))
 		c.Sample(map[string]interface{}{"seed": seed, "requests": nreq, "drop_at_ms": dropAt})
 		c.Flush(false)
 	}
+}
+
+func init() {
+	RegisterReplayer("c18round", func(w json.RawMessage) (bool, string) {
+		var rw struct {
+			Seed     uint64 `json:"seed"`
+			Requests int    `json:"requests"`
+			DropAt   int    `json:"drop_at"`
+		}
+		if json.Unmarshal(w, &rw) != nil {
+			return false, "bad witness"
+		}
+		c := &RunCtx{Prop: "C18", Tier: "quick", Seed: 1, Shards: 1, dset: map[uint64]bool{}, iset: map[uint64]bool{}}
+		c.Rep = &Report{Property: "C18"}
+		c18Round(c, rw.Seed, rw.Requests, rw.DropAt, nil)
+		if len(c.Rep.Violations) > 0 {
+			s := ""
+			for _, v := range c.Rep.Violations {
+				s += v.Sig + ": " + v.Msg + "\n"
+			}
+			return true, s
+		}
+		return false, ""
+	})
 }
